@@ -116,7 +116,31 @@ class TokCfg:
         self.terminals = terminals        # names usable in grammars
         self.lexemes = lexemes            # {terminal: [lexeme, ...]}
         self.fillers = fillers            # skipped pieces usable between tokens
+        # context=True: which token a lexeme becomes depends on what precedes it on the line; the expected
+        # tokens are then taken from reference_tokens(text), not from the terminals the text was rendered from
+        self.context = kwargs.pop('context', False)
         self.kwargs = kwargs              # synonyms / keywords / span_matchers / skip_tokens
+
+    def reference_tokens(self, text):
+        """the documented scan: the pattern is matched at the current column of each line (look-behind and
+        anchors see the rest of the line); -> [(terminal, value)] without skipped tokens"""
+        import re
+        ref = re.compile(self.tokenizer_str, re.VERBOSE)
+        syn = self.kwargs.get('synonyms', {})
+        skip = self.kwargs.get('skip_tokens')
+        skip = {'SPACE', 'COMMENT'} if skip is None else skip
+        out = []
+        for line in text.split("\n"):
+            col = 0
+            while col < len(line):
+                m = ref.match(line, col)
+                if m is None or m.end() == col:
+                    return None
+                name = syn.get(m.lastgroup, m.lastgroup)
+                if name not in skip:
+                    out.append((name, m.group(m.lastgroup)))
+                col = m.end()
+        return out
 
     def make_parser(self, prods, start, **extra):
         return llparser.LLParser(
@@ -146,6 +170,17 @@ class TokCfg:
         if not dense and rng.random() < 0.3:
             pieces.append(rng.choice(self.fillers))
         return "".join(pieces), expected
+
+    def render_checked(self, rng, terms, dense=False):
+        """-> (terminals, text, expected): for a context configuration the terminals and the expected tokens
+        are what the reference scan finds in the rendered text (None, None, None if it finds an illegal character)"""
+        text, expected = self.render(rng, terms, dense)
+        if not self.context:
+            return terms, text, expected
+        ref = self.reference_tokens(text)
+        if ref is None:
+            return None, None, None
+        return [n for n, _ in ref], text, ref
 
     def value_of(self, term, lexeme):
         if term == "STR":
@@ -190,6 +225,16 @@ TOKCFGS = [
         [""],
         synonyms={'A': 'a', 'B': 'b'},
         skip_tokens=set(),
+    ),
+    TokCfg(
+        "minus-by-context",
+        # '-' is a sign (NEG) unless a word or a closing bracket stands directly in front of it
+        r"(?P<SPACE>\s+)|(?P<WORD>[a-z]+)|(?P<NEG>(?<![a-z)])-)|(?P<MINUS>-)|(?P<LP>\()|(?P<RP>\))",
+        ['WORD', 'NEG', 'MINUS', '(', ')'],
+        {'WORD': ['a', 'bc'], 'NEG': ['-'], 'MINUS': ['-'], '(': ['('], ')': [')']},
+        [" ", "", "", "  "],
+        synonyms={'LP': '(', 'RP': ')'},
+        context=True,
     ),
     TokCfg(
         "chained-synonyms",
